@@ -105,7 +105,7 @@ def do_OP_CHECKLOCKTIMEVERIFY(vm: Any) -> None:
         raise ScriptError("empty stack on CHECKLOCKTIMEVERIFY")
     if len(vm.stack[-1]) > 5:
         raise ScriptError("script number overflow")
-    max_lock_time = vm.pop_int()
+    max_lock_time = vm.pop_int(max_size=5)
     vm.push_int(max_lock_time)
     if max_lock_time < 0:
         raise ScriptError("top stack item negative on CHECKLOCKTIMEVERIFY")
@@ -150,7 +150,7 @@ def do_OP_CHECKSEQUENCEVERIFY(vm: Any) -> None:
         )
     if len(vm.stack[-1]) > 5:
         raise ScriptError("script number overflow", errno.INVALID_STACK_OPERATION + 1)
-    sequence = vm.pop_int()
+    sequence = vm.pop_int(max_size=5)
     vm.push_int(sequence)
     if sequence < 0:
         raise ScriptError(
